@@ -204,3 +204,103 @@ Theorem C14_source_BuildAuthURL_composed :
               (fun parsed => build_auth_url_from_document sign (rsp_cfg rs) parsed relay)).
 Proof. exact source_BuildAuthURL_composed. Qed.
 Print Assumptions C14_source_BuildAuthURL_composed.
+
+(* ---- url.Parse / URL.String MODELLED (Url.v; compared with net/url on every run by the case set `urlmodel`).
+   [url_parse : string -> res url] is url.Parse, [Url.url_string] is URL.String, [set_raw_query q U] is `U.RawQuery = q`;
+   [url_parse_split endpoint] is the argument the redirect model takes ([None] when url.Parse fails); [url_parse_gurl] is the
+   same parser as the [url_parse] argument of the translated source (GenRedirect.v). *)
+From V Require Import Url P_Url.
+
+(* An endpoint url.Parse rejects (control character, bad escape, bad port, ...): both flows return an error and no URL; so do
+   the translated exported functions of build_request.go run with the modelled parser. *)
+Theorem C14_unparsable_endpoint_is_an_error :
+  forall (sign : Redirect.hash_alg -> string -> option string) f cfg endpoint relay binding deflated e,
+  url_parse endpoint = Err e ->
+  build_url sign f cfg (url_parse_split endpoint) relay binding deflated = Err (EOther "url.Parse").
+Proof. exact unparsable_endpoint_is_an_error. Qed.
+Print Assumptions C14_unparsable_endpoint_is_an_error.
+
+Theorem C14_unparsable_endpoint_is_an_error_source :
+  forall (write_doc : node -> res string) fl_write fl_close (sign : Redirect.hash_alg -> string -> option string) sp relay doc
+         (built : res node),
+  (forall e, url_parse (rsp_sso_url sp) = Err e ->
+     G_BuildAuthURLFromDocument url_parse_gurl write_doc fl_write fl_close sign sp relay doc = PVal (Err (EOther "url.Parse")) /\
+     G_BuildAuthURLRedirect url_parse_gurl write_doc fl_write fl_close sign sp relay doc = PVal (Err (EOther "url.Parse")) /\
+     forall d, G_BuildAuthURL url_parse_gurl write_doc fl_write fl_close sign sp relay (res_some (Ok d))
+               = PVal (Err (EOther "url.Parse"))) /\
+  (forall e, url_parse (rsp_slo_url sp) = Err e ->
+     G_BuildLogoutURLRedirect url_parse_gurl write_doc fl_write fl_close sign sp relay doc = PVal (Err (EOther "url.Parse"))).
+Proof. exact unparsable_endpoint_source. Qed.
+Print Assumptions C14_unparsable_endpoint_is_an_error_source.
+
+(* C14_existing_params_kept with the parser modelled: for every endpoint url.Parse accepts, the URL returned is String() of
+   the parsed endpoint after `RawQuery = rawq`, and every parameter the endpoint had (as URL.Query() reads its RawQuery) keeps
+   all its values, query-escaped, in order, in front of anything the flow adds; nothing is added to other parameters. *)
+Theorem C14_existing_params_kept_modelled :
+  forall (sign : Redirect.hash_alg -> string -> option string) f cfg endpoint U relay binding deflated url signed,
+  url_parse endpoint = Ok U ->
+  build_url sign f cfg (url_parse_split endpoint) relay binding deflated = Ok (url, signed) ->
+  exists rawq,
+    url = Url.url_string (set_raw_query rawq U) /\
+    forall k, exists extra,
+      url_values (query_escape k) rawq
+      = (map query_escape (values_lookup k (parse_query (u_raw_query U))) ++ extra)%list /\
+      (~ In k saml_params -> extra = []).
+Proof. exact existing_params_kept_modelled. Qed.
+Print Assumptions C14_existing_params_kept_modelled.
+
+(* The IdP endpoint is kept.  For every endpoint url.Parse accepts (parsed as U): the URL either flow returns is String() of U
+   after `U.RawQuery = Encode(qs)`, where qs is the merged query ([merged_query]: the endpoint's own parameters as URL.Query()
+   reads them, with SAMLRequest [, RelayState] [, SigAlg, Signature] added).  For an endpoint of the COMMON CLASS
+   ([common_endpoint]: absolute http / https URL with lower-case scheme; host written with unreserved characters, optional
+   decimal port, no userinfo / IPv6 literal / escapes; path empty or '/'-rooted, made of unreserved / sub-delim / ':' '@' '/'
+   characters and well-formed %XX escapes; optional query without control characters; no fragment) String(Parse(endpoint)) is
+   the endpoint itself and the URL returned is literally the endpoint's text before its '?', then "?", then the encoded
+   query: the endpoint is kept byte for byte. *)
+Theorem C14_endpoint_kept :
+  forall (sign : Redirect.hash_alg -> string -> option string) f cfg endpoint U relay binding deflated url signed,
+  url_parse endpoint = Ok U ->
+  build_url sign f cfg (url_parse_split endpoint) relay binding deflated = Ok (url, signed) ->
+  exists qs,
+    merged_query (parse_query (u_raw_query U)) relay deflated qs /\
+    url = Url.url_string (set_raw_query (values_encode qs) U) /\
+    (common_endpoint endpoint = true ->
+       Url.url_string U = endpoint /\ url = endpoint_base endpoint ++ "?" ++ values_encode qs).
+Proof. exact endpoint_kept. Qed.
+Print Assumptions C14_endpoint_kept.
+
+(* the round trip on its own: every endpoint of the common class parses, String() gives it back, and after `RawQuery = q`
+   (q not empty) String() is the text before the endpoint's first '?' followed by "?" and q *)
+Theorem C14_common_endpoint_round_trip :
+  forall u, common_endpoint u = true ->
+  exists U, url_parse u = Ok U /\ Url.url_string U = u /\
+    forall q, nonempty q = true -> Url.url_string (set_raw_query q U) = endpoint_base u ++ String (byte 63) q.
+Proof. exact common_endpoint_round_trip. Qed.
+Print Assumptions C14_common_endpoint_round_trip.
+
+(* "Kept byte for byte" is FALSE outside the common class: net/url normalises what it parsed ([rewritten_endpoints]: scheme
+   lower-cased, empty fragment dropped, space / non-ASCII escaped, non-ASCII host percent-encoded, userinfo re-encoded, and —
+   when the path holds one byte that validEncoded rejects — every %XX of the path decoded first, so %2F becomes a path
+   separator), and the redirect builders send the rewritten text. *)
+Theorem C14_endpoint_kept_verbatim_refuted :
+  forallb (fun p => match url_parse (fst p) with Ok U => Url.url_string U =?s snd p | Err _ => false end) rewritten_endpoints = true /\
+  (exists u U, url_parse u = Ok U /\ Url.url_string U <> u) /\
+  build_auth_url_redirect ex_sign ex_cfg_unsigned (url_parse_split "https://idp.example.com/a%2Fb/c d") "" "D"
+  = Ok ("https://idp.example.com/a/b/c%20d?SAMLRequest=RA%3D%3D", None).
+Proof. exact endpoint_kept_verbatim_refuted. Qed.
+Print Assumptions C14_endpoint_kept_verbatim_refuted.
+
+(* The same for the exported functions as translated from build_request.go (GenRedirect.v) run with the modelled parser: when
+   the configured endpoint is of the common class, a URL they return is the endpoint's text before its '?', then "?", then a
+   non-empty query — for every serialiser, DEFLATE writer and signer. *)
+Theorem C14_endpoint_kept_source :
+  forall (write_doc : node -> res string) fl_write fl_close (sign : Redirect.hash_alg -> string -> option string) sp relay doc url,
+  (common_endpoint (rsp_sso_url sp) = true ->
+   (G_BuildAuthURLRedirect url_parse_gurl write_doc fl_write fl_close sign sp relay doc = PVal (Ok url) \/
+    G_BuildAuthURLFromDocument url_parse_gurl write_doc fl_write fl_close sign sp relay doc = PVal (Ok url)) ->
+   exists q, nonempty q = true /\ url = endpoint_base (rsp_sso_url sp) ++ "?" ++ q) /\
+  (common_endpoint (rsp_slo_url sp) = true ->
+   G_BuildLogoutURLRedirect url_parse_gurl write_doc fl_write fl_close sign sp relay doc = PVal (Ok url) ->
+   exists q, nonempty q = true /\ url = endpoint_base (rsp_slo_url sp) ++ "?" ++ q).
+Proof. exact endpoint_kept_source. Qed.
+Print Assumptions C14_endpoint_kept_source.
